@@ -234,6 +234,9 @@ Argument:
 
     def _report_completion(self):
         rebench_db = self._config.get_rebench_db_connector()
+        if rebench_db is None:
+            raise UIError("--report-completion needs reporting to ReBenchDB to be configured "
+                          "and enabled.\n", None)
         success, _ = rebench_db.send_completion(get_current_time())
         return success
 
